@@ -9,6 +9,7 @@ import (
 	"time"
 
 	"github.com/glauth/ldap"
+	lib "github.com/whawty/auth/store"
 )
 
 func vpCredPair() (string, string) {
@@ -149,5 +150,28 @@ func VP_C04_ConcurrentVerdicts() {
 		vpAssert("sched: each-client-gets-the-verdict-for-its-own-credentials", oks[i] == right)
 		vpAssert("sched: accepted-only-without-error", vpImp(oks[i], errs[i] == nil))
 	}
+	vpCover("end")
+}
+
+// VP_C04_VerdictIndependentOfPolicy: the password policy governs what may be *stored*; a stored
+// password authenticates through the agent exactly as the store says, whatever policy the agent
+// runs with (the record may predate the policy or have been written through the library).
+func VP_C04_VerdictIndependentOfPolicy() {
+	base, cfg := vpAgentDir(1)
+	_ = base
+	vpSeedUser(cfg, "root", "rootpw", true)
+	vpSeedUser(cfg, "u", "old", false)
+	cond := []string{"score >= 3", "entropy >= 60", "time >= 100000"}[vpChoose("condition", 3)]
+	s, err := NewStore(cfg, "", "zxcvbn", cond, "")
+	if err != nil {
+		panic("setup: " + err.Error())
+	}
+	st := s.GetInterface()
+	pw := []string{"old", "bad"}[vpChoose("password", 2)]
+	d, _ := lib.NewDirFromConfig(cfg)
+	want, _, _, _, _ := d.Authenticate("u", pw)
+	ok, _, _, aerr := st.Authenticate("u", pw)
+	vpAssert("agent-accepts-iff-the-store-accepts-whatever-the-policy", ok == want)
+	vpAssert("accepted-only-without-error", vpImp(ok, aerr == nil))
 	vpCover("end")
 }
